@@ -105,6 +105,9 @@ def setOption(name: str, value: Any) -> None:
             errorCallback('illegal reset API option value: ' + str(value))
     elif name == 'htmlReplacement':
         htmlReplacement = str(value)
+        # Used internally by spans and macros (see io.Reader).
+        for ch in '\u0000\u0001\u0002':
+            htmlReplacement = htmlReplacement.replace(ch, ' ')
     else:
         errorCallback('illegal API option name: ' + name)
 
